@@ -6,6 +6,7 @@ directory is empty at quiescence; surviving iterators and later passes yield
 the complete reference sequence; nothing escapes from a finaliser; once
 faults stop a fresh pass over a view that is still held is complete."""
 import gc
+import logging
 import os
 import tempfile
 
@@ -102,6 +103,11 @@ def gen_case(rng, tier, g):
                       rng.choice(SOURCE_ERROR_KINDS)])
     elif faults < 0.45:
         extra.append(['DISKFULL', rng.choice([0, 1, 10, 40, 100, 200, 400])])
+    if rng.random() < 0.2:
+        # the caching views are told to forget their cache at some moment
+        for _ in range(rng.choice([1, 1, 2])):
+            extra.append(['CLEARCACHE', rng.randrange(nviews),
+                          rng.choice([0, 0, 1])])
     for op in extra:
         steps.insert(rng.randint(0, len(steps)), op)
     if rng.random() < 0.3:
@@ -109,6 +115,12 @@ def gen_case(rng, tier, g):
     case = {'prop': PROP, 'stack': stack, 'tables': tables, 'steps': steps,
             'shape': shape,
             'knobs': {'sort_buffersize': rng.choice([None, 1, 2, 2, 3, 4])}}
+    r = rng.random()
+    if r < 0.3:
+        # logging configuration of the host application: DEBUG enabled on
+        # the petl logger with a handler that formats every record, or one
+        # that also keeps the records (MemoryHandler, pytest's caplog)
+        case['knobs']['logging'] = 'retain' if r < 0.18 else 'format'
     if nviews == 1 and rng.random() < 0.2:
         # enumeration mode: instead of one sampled history, EVERY
         # abandonment point x release order, and a source failure at EVERY
@@ -174,6 +186,26 @@ def _is_injected(t, e):
     return isinstance(e, (SimSourceError, SimSourceAbort, SimDiskFull))
 
 
+class _Handler(logging.Handler):
+    def __init__(self, retain):
+        logging.Handler.__init__(self, logging.DEBUG)
+        self.retain = retain
+        self.records = []
+
+    def emit(self, record):
+        record.getMessage()
+        if self.retain:
+            self.records.append(record)
+
+
+def _log_handler(mode):
+    h = _Handler(mode == 'retain')
+    lg = logging.getLogger('petl')
+    lg.addHandler(h)
+    lg.setLevel(logging.DEBUG)
+    return h
+
+
 def run_case(case):
     e = load_petl()
     import petl.config as config
@@ -191,6 +223,8 @@ def run_case(case):
     uses_diskfull = any(op[0] == 'DISKFULL' for op in case['steps'])
     ctl = _TempCtl()
     saved_ntf = (psorts.NamedTemporaryFile, pjson.NamedTemporaryFile)
+    logmode = case.get('knobs', {}).get('logging')
+    handler = _log_handler(logmode) if logmode else None
     probes = {}
     result = None
     maxfiles = 0
@@ -244,8 +278,17 @@ def run_case(case):
     finally:
         config.sort_buffersize = saved
         psorts.NamedTemporaryFile, pjson.NamedTemporaryFile = saved_ntf
+        if handler is not None:
+            lg = logging.getLogger('petl')
+            lg.removeHandler(handler)
+            lg.setLevel(logging.ERROR)
+            if handler.records:
+                probes['log-records-retained'] = 1
+            del handler.records[:]
     if result is not None:
         return result
+    if logmode:
+        probes['logging:' + logmode] = 1
     probes['recipe:' + stack[0][0]] = 1
     if maxfiles:
         probes['temp-files-seen'] = 1
